@@ -221,8 +221,21 @@ func (s C6Stage) render(prev string) string {
 	case "groupByString":
 		return prev + fmt.Sprintf(".groupByString(x->string(%s%%%d))", h("x"), s.K)
 	case "multiUse":
-		return prev + fmt.Sprintf(".multiUse({a:l->l.reduce((s,v)->%s),b:l->l.number((i,e)->h(%d,%s)).sum()})",
-			h(lin2s(s.A, s.B, "s", "v")), s.ID, lin2s(s.A2, s.B2, "i", "e"))
+		// NC = the shape of consumer b's result: a scalar, its lazy list, a list literal holding the lazy list (alone or behind
+		// a string), a map holding a list literal holding the lazy list - runConsumer has to force all of them before it reports done
+		nl := fmt.Sprintf("l.number((i,e)->h(%d,%s))", s.ID, lin2s(s.A2, s.B2, "i", "e"))
+		b := nl + ".sum()"
+		switch s.NC {
+		case "lazy":
+			b = nl
+		case "listlit":
+			b = "[" + nl + "]"
+		case "taglist":
+			b = "[\"odd\"," + nl + "]"
+		case "maplist":
+			b = "{r:[" + nl + "]}"
+		}
+		return prev + fmt.Sprintf(".multiUse({a:l->l.reduce((s,v)->%s),b:l->%s})", h(lin2s(s.A, s.B, "s", "v")), b)
 	}
 	panic("unknown stage kind " + s.Kind)
 }
@@ -749,6 +762,7 @@ type C6Result struct {
 	NCPU  int         `json:"ncpu"`
 	Procs int         `json:"procs"`
 	Hang  bool        `json:"hang,omitempty"`
+	Skip  bool        `json:"skip,omitempty"`
 	Crash bool        `json:"crash,omitempty"`
 }
 
@@ -771,6 +785,19 @@ func c6Ints(v value.Value) ([]int64, error) {
 			r = append(r, n)
 		}
 		return r, nil
+	case value.Map:
+		r := []int64{}
+		var ierr error
+		x.Iter(func(k string, e value.Value) bool {
+			ev, err := c6Ints(e)
+			if err != nil {
+				ierr = err
+				return false
+			}
+			r = append(r, ev...)
+			return true
+		})
+		return r, ierr
 	case *value.List:
 		sl, err := x.ToSlice(st)
 		if err != nil {
@@ -812,6 +839,13 @@ func c6Canon(kind string, v value.Value) ([]int64, error) {
 			x, err := get(m, k)
 			if err != nil {
 				return nil, err
+			}
+			if kind == "multiUse" && k == "b" { // whatever shape consumer b's result has: the sum of the numbers in it
+				sum := int64(0)
+				for _, v := range x {
+					sum += v
+				}
+				x = []int64{sum}
 			}
 			r = append(r, x...)
 		}
@@ -900,6 +934,7 @@ func c6Eval(fg *value.FunctionGenerator, c *C6Case) C6Result {
 
 // p2h c06worker --out <dir>: reads <dir>/worker-in.json ({"cases":[...], "from": k}), appends one JSON line per case to stdout
 func cmdC06Worker(seed int64, tier, outDir string) {
+	muTimeouts := 0
 	bs, err := os.ReadFile(outDir)
 	if err != nil {
 		fatal("worker input: %v", err)
@@ -914,6 +949,14 @@ func cmdC06Worker(seed int64, tier, outDir string) {
 	for i := range cases {
 		c := &cases[i]
 		fmt.Fprintf(os.Stderr, "@@CASE %d\n", c.ID)
+		if c.Term.Kind == "multiUse" && c.Term.NC != "" && muTimeouts >= 2 {
+			// every such case costs CopyProducer's 5 s guard once it times out: the family is stopped after two
+			line, _ := json.Marshal(C6Result{ID: c.ID, Skip: true, NCPU: runtime.NumCPU(), Procs: runtime.GOMAXPROCS(0), Gids: map[int]int{}})
+			w.Write(line)
+			w.WriteByte('\n')
+			w.Flush()
+			continue
+		}
 		done := make(chan C6Result, 1)
 		go func() { done <- c6Eval(fg, c) }()
 		var r C6Result
@@ -921,6 +964,9 @@ func cmdC06Worker(seed int64, tier, outDir string) {
 		case r = <-done:
 		case <-time.After(90 * time.Second):
 			r = C6Result{ID: c.ID, Hang: true, Err: "no result after 90 s", NCPU: runtime.NumCPU(), Procs: runtime.GOMAXPROCS(0)}
+		}
+		if c.Term.Kind == "multiUse" && c.Term.NC != "" && strings.Contains(r.Err, "timed out") {
+			muTimeouts++
 		}
 		line, _ := json.Marshal(r)
 		w.Write(line)
@@ -1063,6 +1109,9 @@ func c6SafeRef(s C6Stage, l []int64) (out []int64) {
 	return s.ref(l)
 }
 
+// multiUse consumers whose result is a structure holding lazy lists: each costs 5 s when the forcing is broken, so only a few
+var c6MuShapes, c6MuShapeMax = 0, 4
+
 // boosted shape: closure-calling stages on both sides of a map/accept whose switch is forced
 func (r *Rng) c6Gen(id int, big bool) *C6Case {
 	c := &C6Case{ID: id, Seed: int64(r.Intn(1 << 30))}
@@ -1127,6 +1176,10 @@ func (r *Rng) c6Gen(id int, big bool) *C6Case {
 	}
 	c.Term = r.c6Stage(tk, &hid)
 	c.Term.Cost = "none"
+	if tk == "multiUse" && c6MuShapes < c6MuShapeMax && r.Chance(0.6) { // consumer b returns a list / a structure holding its lazy list
+		c.Term.NC = []string{"lazy", "listlit", "taglist", "maplist"}[r.Pick(4)]
+		c6MuShapes++
+	}
 	// failing element: only where the whole list is consumed (no top / first), see the property's quantifier
 	early := tk == "first"
 	for _, s := range c.Stages {
@@ -1224,6 +1277,9 @@ func c6Corpus() []*C6Case {
 		mk(90, C6Stage{Kind: "string"}, C6Stage{Kind: "nest", OLen: 6, J: 3, NC: "index", Sub: []C6Stage{{Kind: "combine", ID: 90, ID2: 91, A: 10, B: 0, Fail: -1, Cost: "all", Cost2: "none"}}}),
 		mk(90, red, C6Stage{Kind: "nest", OLen: 5, J: 0, NC: "sum", Sub: []C6Stage{{Kind: "iir", ID: 90, ID2: 91, A: 1, B: 0, A2: 1, B2: 0, Fail: -1, Cost: "front", Cost2: "none"}}}),
 		// sequential re-entrant index access: the stage indexes an unevaluated let-bound closure-stage list while it is itself evaluated by an index access
+		// multiUse: the consumer's result holds its lazy list inside a list literal / a map of a list literal
+		mk(40, C6Stage{Kind: "multiUse", A: 1, B: 0, A2: 1, B2: 1, NC: "listlit"}, num),
+		mk(60, C6Stage{Kind: "multiUse", A: 2, B: 1, A2: 1, B2: 2, NC: "maplist"}, num, front),
 		mk(3, C6Stage{Kind: "index", J: 0}, C6Stage{Kind: "reent", A: 0, B: 0, A2: 0, B2: 0, OLen: 5, J: 1}),
 		mk(40, C6Stage{Kind: "index", J: 7}, num, C6Stage{Kind: "reent", A: 2, B: 1, A2: 3, B2: 2, OLen: 6, J: 4}),
 		mk(13, C6Stage{Kind: "string"}, num, front, num),
@@ -1434,6 +1490,9 @@ func c6Signature(c *C6Case, switched map[int]bool, symptom string) string {
 			return fmt.Sprintf("up=%s/par=%s/down=%s/%s", up, s.Kind, down, symptom)
 		}
 	}
+	if c.Term.Kind == "multiUse" && c.Term.NC != "" && (symptom == "error-mismatch" || symptom == "sequential-path") {
+		return fmt.Sprintf("multiUse-result-shape(%s)/%s", c.Term.NC, symptom)
+	}
 	if c.Term.Kind == "index" {
 		for _, s := range c.Stages {
 			if s.Kind == "reent" {
@@ -1489,6 +1548,7 @@ func cmdC06(seed int64, tier, outDir string) {
 	} else {
 		n, nbig := 200, 6
 		if tier == "thorough" {
+			c6MuShapeMax = 60
 			n, nbig = 6000, 150
 		}
 		n *= optBoost
@@ -1601,6 +1661,13 @@ func cmdC06(seed int64, tier, outDir string) {
 				sum.Count("reiteration", s.Kind)
 			}
 		}
+		if c.Term.Kind == "multiUse" {
+			shape := c.Term.NC
+			if shape == "" {
+				shape = "scalar"
+			}
+			sum.Count("multiUse_result_shape", shape)
+		}
 		if c.Term.Kind == "twice" {
 			sum.Count("reiteration", "twice: [m.sum(), m.mapReduce(..), m.size()]")
 		}
@@ -1618,6 +1685,8 @@ func cmdC06(seed int64, tier, outDir string) {
 		if sq := seqOf[c.ID]; sq != nil {
 			if sq.NCPU != 1 {
 				sum.Skipped["taskset-did-not-restrict-cpus"]++
+			} else if sq.Skip {
+				sum.Skipped["multiUse-result-shape-family-stopped-after-two-timeouts"]++
 			} else {
 				if strings.HasPrefix(sq.Err, "generate:") {
 					fatal("c06: generated expression rejected: %s: %s", text, sq.Err)
@@ -1684,6 +1753,12 @@ func cmdC06(seed int64, tier, outDir string) {
 				sum.Sample(map[string]any{"expression": text, "gomaxprocs": run.procs, "observed": c6ObsString(res.Obs, res.OK)})
 			}
 			extra := map[string]any{"gomaxprocs": run.procs, "switched_stage_ids": sortedIntKeys(switched)}
+			if res.Skip {
+				sum.Skipped["multiUse-result-shape-family-stopped-after-two-timeouts"]++
+				caseID--
+				sum.Evaluations--
+				continue
+			}
 			if res.Hang {
 				addViolation(c, switched, "hang", "evaluation did not finish within 90 s", c6ObsString(ref, refOK), "no result", caseID, extra)
 				continue
